@@ -810,6 +810,9 @@ class Engine:
             yield (tag, list(vs) if tag == "val" else vs, st2)
 
     def e_Dict(self, e, st):
+        if not e.keys and self.options.get("empty_dict") is not None:
+            yield ("val", self.options["empty_dict"](), st)          # the contract observes the stores into this dict
+            return
         for tag, ks, st2 in self.seq(e.keys, st):
             if tag == "raise":
                 yield (tag, ks, st2); continue
